@@ -26,7 +26,7 @@ ASSUMPTIONS = ["crash model: process stops between two transport operations (or 
                "a crash state holding lock/held is first unlocked with force_break(peek()) as an operator would (C27 shows that is possible)",
                "branch tip vs repository consistency is not part of this property"]
 
-SCENARIOS = ["commit", "commit-autopack", "fetch", "pack", "pack-clean", "commit-after-pack", "fetch-autopack"]
+SCENARIOS = ["commit", "commit-autopack", "fetch", "pack", "pack-clean", "commit-after-pack", "fetch-autopack", "pack-again"]
 _templates = {}
 
 
@@ -160,6 +160,17 @@ def _judge(ctx, snap, old, new, label, seq_state):
         ctx.fail("crash-state:check-unclean", "%s (%s): %r" % (label, which, probs), seq_state)
     # usability probe: ordinary operations still work and keep everything
     try:
+        # packing the crash state as it is (same contents as the interrupted operation was combining) must work and
+        # leave one pack: a leftover of the interrupted pack must not turn later packs into no-ops
+        repo1 = Repository.open(snap)
+        with repo1.lock_write():
+            repo1.pack()
+            n1 = len(repo1._pack_collection.names())
+        ctx.count("probe_pack_first")
+        if revs and n1 != 1:
+            ctx.fail("crash-state:probe-pack-did-not-combine", "%s: pack() on the crash state left %d packs" % (label, n1), seq_state)
+        with Repository.open(snap).lock_read():
+            pass
         b = Branch.open(snap)
         pco = os.path.join(snap, "probe-co")
         co = b.create_checkout(pco, lightweight=True)
@@ -194,7 +205,7 @@ def case(ctx):
     scen = SCENARIOS[ctx.index % len(SCENARIOS)]
     if scen in ("commit-autopack", "fetch-autopack"):
         k = 9 if (ctx.tier == "quick" or rng.random() < 0.8) else 99
-    elif scen in ("pack", "pack-clean", "commit-after-pack"):
+    elif scen in ("pack", "pack-clean", "commit-after-pack", "pack-again"):
         k = rng.choice([3, 5, 8])
     else:
         k = rng.choice([0, 1, 3, 8]) if scen == "commit" else rng.choice([1, 3, 5])
@@ -208,7 +219,8 @@ def case(ctx):
         extra = rng.randint(1, 4)
         stpl = _build_template(fmt, k + extra, "a", base=k)
         src = os.path.join(stpl, "r")
-    if scen == "commit-after-pack":
+    if scen in ("commit-after-pack", "pack-again"):
+        # (pack-again: the repository is one optimal pack already; packing it again must not touch the live files)
         with Repository.open(rpath).lock_write() as _:
             pass
         r0 = Repository.open(rpath)
